@@ -33,6 +33,8 @@ deriving DecidableEq, Repr
 structure Fail where
   off : Nat
   reason : String
+  /-- `true`: the Rust code panics here (index out of bounds, `unwrap`), it does not return an error -/
+  panic : Bool := false
 deriving Repr, DecidableEq
 
 structure ScanErr where
@@ -146,7 +148,7 @@ def generalBody : List Char → Option (List Char)
 def scanGeneralComment (cs : List Char) : Except Fail (List Char) :=
   match generalBody (cs.drop 2) with
   | some body => .ok ('/' :: '*' :: body)
-  | none => .error ⟨0, "comment no termination '*/'"⟩
+  | none => .error { off := 0, reason := "comment no termination '*/'" }
 
 /-- scanner.rs `scan_identifier` -/
 def scanIdentifier (cs : List Char) : List Char := cs.takeWhile fun ch => isLetterC ch || isUnicodeDigit ch
@@ -164,20 +166,20 @@ def validScalar (v : Nat) : Bool := v < 0xD800 || (0xDFFF < v && v ≤ 0x10FFFF)
 /-- the closure `match_n`: exactly `n` chars of `cs`, all `valid` -/
 def matchN (valid : Char → Bool) : Nat → List Char → Except Fail (List Char)
   | 0, _ => .ok []
-  | _+1, [] => .error ⟨0, "literal not terminated"⟩
+  | _+1, [] => .error { off := 0, reason := "literal not terminated" }
   | n+1, c :: cs =>
     if valid c then
       match matchN valid n cs with
       | .ok r => .ok (c :: r)
       | .error e => .error e
-    else .error ⟨0, "illegal rune literal"⟩
+    else .error { off := 0, reason := "illegal rune literal" }
 
 /-- scanner.rs `scan_rune(start_at, quote)`, `cs = chars[start_at..]`.  All failures are located at
     the token start (`self.pos`). -/
 def scanRune (quote : Char) (cs : List Char) : Except Fail (List Char) :=
   match cs with
-  | [] => .error ⟨0, "literal not terminated"⟩
-  | '\\' :: [] => .error ⟨0, "literal not terminated"⟩
+  | [] => .error { off := 0, reason := "literal not terminated" }
+  | '\\' :: [] => .error { off := 0, reason := "literal not terminated" }
   | '\\' :: n2 :: after =>
     let numeric (radix : Nat) (count : Nat) (valid : Char → Bool) (lead : List Char) : Except Fail (List Char) :=
       match matchN valid count after with
@@ -185,17 +187,17 @@ def scanRune (quote : Char) (cs : List Char) : Except Fail (List Char) :=
       | .ok ds =>
         let value := parseRadix radix (lead ++ ds)
         if (radix ≠ 8 || value ≤ 255) && validScalar value then .ok ('\\' :: n2 :: ds)
-        else .error ⟨0, "invalid Unicode code point"⟩
+        else .error { off := 0, reason := "invalid Unicode code point" }
     if n2 = 'x' then numeric 16 2 isHexDigit []
     else if n2 = 'u' then numeric 16 4 isHexDigit []
     else if n2 = 'U' then numeric 16 8 isHexDigit []
     else if isOctalDigit n2 then numeric 8 2 isOctalDigit [n2]
     else if isEscapedChar n2 && (n2 = quote || !(n2 = '\'' || n2 = '"')) then .ok ['\\', n2]
-    else .error ⟨0, "unknown escape sequence"⟩
+    else .error { off := 0, reason := "unknown escape sequence" }
   | c :: _ =>
-    if c = '\'' && quote = '\'' then .error ⟨0, "empty rune literal"⟩
+    if c = '\'' && quote = '\'' then .error { off := 0, reason := "empty rune literal" }
     else if c ≠ '\n' then .ok [c]
-    else .error ⟨0, "unexpected character"⟩
+    else .error { off := 0, reason := "unexpected character" }
 
 /-- scanner.rs `scan_lit_rune` (`cs` starts with the opening quote) -/
 def scanLitRune (cs : List Char) : Except Fail (List Char) :=
@@ -204,8 +206,8 @@ def scanLitRune (cs : List Char) : Except Fail (List Char) :=
   | .ok rune =>
     match (cs.drop (1 + rune.length)).head? with
     | some '\'' => .ok ('\'' :: (rune ++ ['\'']))
-    | some _ => .error ⟨0, "rune literal expect termination"⟩
-    | none => .error ⟨0, "rune literal not termination"⟩
+    | some _ => .error { off := 0, reason := "rune literal expect termination" }
+    | none => .error { off := 0, reason := "rune literal not termination" }
 
 /-- raw string body after the opening back quote: up to and including the next back quote -/
 def rawBody : List Char → List Char × Bool
@@ -229,7 +231,7 @@ def strBody : Nat → List Char → Except Fail (List Char × Bool)
 /-- scanner.rs `scan_lit_string` (`cs` starts with the opening quote) -/
 def scanLitString (cs : List Char) : Except Fail (List Char) :=
   match cs with
-  | [] => .error ⟨0, "unreachable: no quote"⟩
+  | [] => .error { off := 0, reason := "index out of bounds: chars[pos] (scan_lit_string)", panic := true }
   | quote :: body =>
     let r : Except Fail (List Char × Bool) :=
       if quote = '`' then .ok (rawBody body) else strBody (body.length + 1) body
@@ -237,7 +239,7 @@ def scanLitString (cs : List Char) : Except Fail (List Char) :=
     | .error e => .error e
     | .ok (text, terminated) =>
       if terminated then .ok (quote :: text)
-      else .error ⟨1 + text.length, "string literal not terminated"⟩
+      else .error { off := 1 + text.length, reason := "string literal not terminated" }
 
 /-! ### numbers -/
 
@@ -266,31 +268,31 @@ def scanLitNumber (cs : List Char) : Except Fail (LitKind × List Char × Nat) :
       else if next2 = ['0', 'o'] || next2 = ['0', 'O'] then (8, next2 ++ scanDigits isDecimalDigit (cs.drop 2))
       else if next2 = ['0', 'x'] || next2 = ['0', 'X'] then (16, next2 ++ scanDigits isHexDigit (cs.drop 2))
       else (10, scanDigits isDecimalDigit cs)
-  if endsWith intPart '_' then .error ⟨intPart.length, "'_' must separate successive digits"⟩
+  if endsWith intPart '_' then .error { off := intPart.length, reason := "'_' must separate successive digits" }
   else if radix = 8 && (intPart.contains '8' || intPart.contains '9') then
-    .error ⟨0, "invalid digit in octal literal"⟩
+    .error { off := 0, reason := "invalid digit in octal literal" }
   else
   let facStart := intPart.length
   let afterInt := cs.drop facStart
   let hasDot := afterInt.head? = some '.'
-  if hasDot && (radix = 2 || radix = 8) then .error ⟨facStart, "invalid radix point"⟩
+  if hasDot && (radix = 2 || radix = 8) then .error { off := facStart, reason := "invalid radix point" }
   else
   let facPart : List Char :=
     if hasDot then '.' :: scanDigits (if radix = 16 then isHexDigit else isDecimalDigit) (afterInt.drop 1)
     else []
   if (facPart.take 2 = ['.', '_']) || endsWith facPart '_' then
-    .error ⟨facStart, "'_' must separate successive digits"⟩
+    .error { off := facStart, reason := "'_' must separate successive digits" }
   else
   let mant := intPart ++ facPart
   let skipped := mant.length
   let afterMant := cs.drop skipped
   let next1 := afterMant.head?
-  if mant.isEmpty then .error ⟨skipped, "invalid radix point"⟩
-  else if radix ≠ 10 && intPart.length = 2 && facPart.length ≤ 1 then .error ⟨skipped, "mantissa has no digits"⟩
+  if mant.isEmpty then .error { off := skipped, reason := "invalid radix point" }
+  else if radix ≠ 10 && intPart.length = 2 && facPart.length ≤ 1 then .error { off := skipped, reason := "mantissa has no digits" }
   else if radix ≠ 10 && (next1 = some 'e' || next1 = some 'E') then
-    .error ⟨skipped, "E exponent requires decimal mantissa"⟩
+    .error { off := skipped, reason := "E exponent requires decimal mantissa" }
   else if radix ≠ 16 && (next1 = some 'p' || next1 = some 'P') then
-    .error ⟨skipped, "P exponent requires hexadecimal mantissa"⟩
+    .error { off := skipped, reason := "P exponent requires hexadecimal mantissa" }
   else
   let expPart : List Char :=
     match afterMant with
@@ -304,11 +306,11 @@ def scanLitNumber (cs : List Char) : Except Fail (LitKind × List Char × Nat) :
       else []
     | [] => []
   if !expPart.isEmpty && !(match expPart.getLast? with | some c => isDecimalDigit c | none => false) then
-    .error ⟨skipped + expPart.length, "exponent has no digits"⟩
+    .error { off := skipped + expPart.length, reason := "exponent has no digits" }
   else if radix = 16 && !facPart.isEmpty && expPart.isEmpty then
-    .error ⟨skipped + expPart.length, "mantissa has no digits"⟩
+    .error { off := skipped + expPart.length, reason := "mantissa has no digits" }
   else if ((expPart.drop 1).find? fun ch => ch ≠ '+' && ch ≠ '-') = some '_' || endsWith expPart '_' then
-    .error ⟨skipped + expPart.length, "'_' must separate successive digits"⟩
+    .error { off := skipped + expPart.length, reason := "'_' must separate successive digits" }
   else
   let numlit := mant ++ expPart
   let charCount := numlit.length
@@ -316,7 +318,7 @@ def scanLitNumber (cs : List Char) : Except Fail (LitKind × List Char × Nat) :
   if (cs.drop charCount).head? = some 'i' then .ok (.Imag, numlit ++ ['i'], charCount + 1)
   else if isFloat then .ok (.Float, numlit, charCount)
   else if radix = 10 && numlit.length > 1 && numlit.head? = some '0' && (numlit.contains '8' || numlit.contains '9') then
-    .error ⟨0, "invalid digit in octal literal"⟩
+    .error { off := 0, reason := "invalid digit in octal literal" }
   else .ok (.Integer, numlit, charCount)
 
 /-! ### one token -/
@@ -339,7 +341,7 @@ def scanToken (cs : List Char) : Except Fail (Token × Nat) :=
   | some op => .ok (.operator op, op.str.length)
   | none =>
   match cs with
-  | [] => .error ⟨0, "unreachable: scan_token at end of input"⟩
+  | [] => .error { off := 0, reason := "index out of bounds: indices[pos] (next_nstr)", panic := true }
   | next0 :: tl =>
     let next1IsDigit := match tl.head? with | some c => isDecimalDigit c | none => false
     if isDecimalDigit next0 || (next0 = '.' && next1IsDigit) then
@@ -361,7 +363,7 @@ def scanToken (cs : List Char) : Except Fail (Token × Nat) :=
       | none => .ok (.literal .Ident ident, ident.length)
     else match opFromChars [next0] with
       | some op => .ok (.operator op, op.str.length)
-      | none => .error ⟨0, "unresolved character"⟩
+      | none => .error { off := 0, reason := "unresolved character" }
 
 /-! ### the scanner state machine -/
 
@@ -409,7 +411,7 @@ def nextToken (s : Scanner) : Except SErr (Option (Nat × Token)) × Scanner :=
     else
       let current := s.pos
       match scanToken s.rest with
-      | .error f => (.error (s.errorAt (s.pos + f.off) f.reason), s)
+      | .error f => (.error (if f.panic then .panic f.reason else s.errorAt (s.pos + f.off) f.reason), s)
       | .ok (tok, charCount) =>
         let s := s.addTokenCrossLine tok
         let s := { s with pos := s.pos + charCount }
